@@ -290,6 +290,7 @@ const char* cmpDecode(const Ref& R, const Run& L, const XMLByte* src, size_t n, 
 struct Tally {
     std::map<std::string, unsigned long> kinds; std::vector<std::string> first; unsigned long runs, seqs; size_t keep;
     std::map<std::string, unsigned long> exc; unsigned long rOk, rErr, rTrunc;
+    std::map<std::string, unsigned long> excByClass;     // "<class of ill-formedness>\t<exception type:code>" (unsplit runs)
     Tally() : runs(0), seqs(0), keep(12), rOk(0), rErr(0), rTrunc(0) {}
     // count a mismatch; true when its details should be logged (the first three of each kind)
     bool hit(const std::string& kind) { unsigned long& c = kinds[kind]; c++; return c <= 3 && first.size() < keep * 4; }
@@ -297,6 +298,7 @@ struct Tally {
     void emit() {
         gOut.line("N\tseqs=" + itos(seqs) + "\truns=" + itos(runs) + "\tref_ok=" + itos(rOk) + "\tref_err=" + itos(rErr) + "\tref_trunc=" + itos(rTrunc));
         for (std::map<std::string, unsigned long>::iterator i = exc.begin(); i != exc.end(); ++i) gOut.line("X\t" + i->first + "\t" + itos(i->second));
+        for (std::map<std::string, unsigned long>::iterator i = excByClass.begin(); i != excByClass.end(); ++i) gOut.line("XC\t" + i->first + "\t" + itos(i->second));
         for (std::map<std::string, unsigned long>::iterator i = kinds.begin(); i != kinds.end(); ++i) gOut.line("K\t" + i->first + "\t" + itos(i->second));
         for (size_t i = 0; i < first.size(); i++) gOut.line(first[i]);
     }
@@ -318,7 +320,7 @@ void sweepOne(SweepCtx& c, const XMLByte* s, size_t n, const char* variant) {
     refDecode(c.k, 0, s, n, c.R);
     if (c.R.status == R_OK) c.T->rOk++; else if (c.R.status == R_ERR) c.T->rErr++; else c.T->rTrunc++;
     libDecode(c.t, s, n, n, c.mcMain, c.L, *c.B); c.T->runs++;
-    if (c.L.status == L_EXC) c.T->exc[c.L.exc]++;
+    if (c.L.status == L_EXC) { c.T->exc[c.L.exc]++; if (c.R.status == R_ERR) c.T->excByClass[std::string(c.R.cls) + "\t" + c.L.exc]++; }
     const char* m = cmpDecode(c.R, c.L, s, n, c.k, c.judgeSizes);
     if (m) XV_MIS(*c.T, std::string(m) + ":" + (c.R.status == R_ERR ? c.R.cls : c.R.status == R_TRUNC ? "truncated" : "wellformed"),
                          hexBytes(s, n) + "\t" + variant + " split=- maxChars=" + itos(c.mcMain) + "\texp=" + refDesc(c.R) + "\tobs=" + runDesc(c.L));
